@@ -13,6 +13,7 @@ from . import common, translate, gen_search
 
 
 def _relevant(prop):
+    translate.load_ext()
     return [e for e in translate.REGISTRY if prop in e["props"]]
 
 
